@@ -23,6 +23,10 @@ use crate::opcodes::OpcodeKind;
 
 impl Generator {
     pub(super) fn generate_internal(&mut self, source: &mut GenerationSource) -> Result<Vec<u8>> {
+        // every call produces one complete pickle: start from a clean stack, memo,
+        // PROTO flag and output buffer even when the generator is reused
+        self.reset();
+
         #[cfg(pickle_fuzzer_verif)]
         crate::verif::record(self, "begin", None);
         // decide if we'll use FRAME (only for protocol >= 4, randomly chosen)
